@@ -205,6 +205,19 @@ class C18(spec.Spec):
         ids = all_identifiers(doc)
         for kind, c in containers(doc):
             lookup_oracle(c, out, hist, kind, ids)
+        # the same questions after the container has been read by the transformations and exporters
+        src = self.fresh(hist).doc
+        from prov.graph import prov_to_graph
+        for f in (lambda d: d.unified(), lambda d: [b.unified() for b in d.bundles], lambda d: d.flattened(),
+                  prov_to_graph, lambda d: d.serialize(format="json"), lambda d: d.get_provn(),
+                  lambda d: ProvDocument().update(d)):
+            try:
+                f(src)
+            except Exception:
+                pass
+        ids = all_identifiers(src)
+        for kind, c in containers(src):
+            lookup_oracle(c, out, hist, kind + " after unified/flattened/graph/export", ids)
         if len(out.samples) < 2 and len(hist) >= 3:
             out.samples.append({"history": self.ops(hist)})
 
